@@ -205,9 +205,9 @@ class StoreWorld:
         c.data_stg = os.path.join(self.root, 'stg')
         c.data_log = os.path.join(self.root, 'logs')
         c.db_lock = False
-        if DBI().is_open and not DBI().is_reopened:
-            DBI().close()
         DBI()._DBI__reopened = False
+        if DBI().is_open:
+            DBI().close()
         FakeSock.live.clear()
         reset_reactor()
 
@@ -240,3 +240,60 @@ class StoreWorld:
 
     def staged(self):
         return sorted(os.listdir(dawgie.context.data_stg))
+
+
+# ------------------------------------------------------------------ clock
+
+import datetime as _dt
+import types as _types
+
+
+class VClock:
+    '''virtual wall clock.  install(module) replaces the name `datetime` the
+    module uses (either the datetime module or the datetime class) with a
+    shim whose now() is the virtual instant.'''
+
+    def __init__(self, start=None):
+        self.now = start or _dt.datetime(2024, 1, 1, tzinfo=_dt.UTC)
+        clock = self
+
+        class VDT(_dt.datetime):
+            @classmethod
+            def now(cls, tz=None):
+                n = clock.now
+                if tz is None:
+                    return cls(n.year, n.month, n.day, n.hour, n.minute,
+                               n.second, n.microsecond)
+                n = n.astimezone(tz)
+                return cls(n.year, n.month, n.day, n.hour, n.minute,
+                           n.second, n.microsecond, tzinfo=n.tzinfo)
+
+        self.VDT = VDT
+        ns = _types.SimpleNamespace()
+        for k in dir(_dt):
+            if not k.startswith('__'):
+                setattr(ns, k, getattr(_dt, k))
+        ns.datetime = VDT
+        self.module_shim = ns
+        self._saved = []
+
+    def install(self, module, name='datetime'):
+        old = getattr(module, name)
+        self._saved.append((module, name, old))
+        if isinstance(old, type) or (
+            hasattr(old, '__mro__') and _dt.datetime in getattr(old, '__mro__', ())
+        ):
+            setattr(module, name, self.VDT)
+        else:
+            setattr(module, name, self.module_shim)
+
+    def uninstall(self):
+        for module, name, old in reversed(self._saved):
+            setattr(module, name, old)
+        self._saved.clear()
+
+    def set(self, when):
+        self.now = when
+
+    def advance(self, seconds):
+        self.now = self.now + _dt.timedelta(seconds=seconds)
